@@ -40,6 +40,13 @@ RULE = ('pairs: generated reference (taxonomy depth 1-5, chains, single-node '
         '(chunk_size 1); every derived run draws a new chunk size, worker '
         'count (1-4), encoding (dense/csr/csc) and rng seed.  unit: valid '
         'trees x 4-12 cells sharing 1-3 vectors x scripted valid votes.  '
+        'wide family: a parent with 257-400 children (one-level taxonomy, or one '
+        'class of a two-level one, flatten on/off) x 257-300 cells resembling '
+        'leaves of sorted index >= 256, mapped in ONE chunk and, paired, in '
+        'chunks of 30-255 rows, in files of 2-40 cells and alone; unit: real '
+        'choose_node at factor 1 against an independent correlation arg-max, '
+        '255/256/257/300-2000/65536/65537/~70000 candidate types (some types '
+        'on several reference rows) x 1-300 cells.  '
         'non-trivial = the taxonomy has a parent with >= 2 children and the '
         'pair shares >= 1 cell (unit: >= 2 cells); distinct by canonical '
         'JSON of the pair')
@@ -288,6 +295,8 @@ def run_one(ctx, problem, cfg, table, label, workdir=None, tmp_dir=True):
     r = U.run_problem(problem, cfg, want_trace=False, workdir=workdir,
                       tmp_dir=tmp_dir)
     r['pred_fail'] = None
+    U.mutation_violation(ctx, 'C06', r, {'kind': 'single', 'problem': problem,
+                                          'config': cfg})
     if not r['ok'] or r['results'] is None:
         ctx.count('run:fails')
         return r
@@ -504,12 +513,228 @@ def run_units(ctx, n):
         ctx.count('unit:distinct-vectors:%d' % len(set(kap)))
 
 
+# --------------------------------------------------------------------------
+# wide parents: more children than a narrow integer dtype can index
+# --------------------------------------------------------------------------
+
+def gen_wide_problem(rng, n_leaves, n_cells, two_level):
+    """a parent with n_leaves (> 256) children -- the root of a one-level
+    taxonomy, or one class of a two-level one -- and cells that resemble a
+    chosen leaf each (most of them leaves whose sorted index is >= 256)"""
+    names = ['c%04d' % i for i in range(n_leaves)]
+    if rng.random() < 0.5:
+        names = ['%s%d' % (rng.choice('abz9_'), i) for i in range(n_leaves)]
+    if two_level:
+        n_small = rng.randint(2, 20)
+        small = ['s%d' % i for i in range(n_small)]
+        tree = {'hierarchy': ['class', 'cluster'],
+                'class': {'wide': list(names), 'small': small},
+                'cluster': {n: [] for n in names + small}}
+    else:
+        tree = {'hierarchy': ['cluster'], 'cluster': {n: [] for n in names}}
+    problem = U.make_problem(rng, tree=tree, n_genes=rng.randint(10, 14),
+                             n_cells=n_cells)
+    col = {g: i for i, g in enumerate(problem['ref_genes'])}
+    ranked = sorted(names)
+    X = []
+    for _ in range(n_cells):
+        r = rng.random()
+        if r < 0.7:
+            leaf = ranked[rng.randrange(256, n_leaves)]
+        elif r < 0.85:
+            leaf = ranked[rng.choice([255, 256, n_leaves - 1, 0])]
+        else:
+            leaf = rng.choice(names)
+        mean = [x / problem['leaf_n'][leaf] for x in problem['leaf_sum'][leaf]]
+        scale = rng.uniform(5.0, 30.0)
+        row = []
+        for g in problem['query_genes']:
+            v = (2.0 ** mean[col[g]] - 1.0) * scale if g in col else \
+                rng.randrange(40)
+            row.append(float(max(0, int(round(v + rng.uniform(-0.4, 0.4))))))
+        if not any(row):
+            row[0] = 1.0
+        X.append(row)
+    problem['X'] = X
+    sanitize(rng, problem)
+    return problem
+
+
+def run_wide_pairs(ctx, n_bases):
+    """the same cell mapped in ONE big chunk (>= 256 cells in the election
+    group), in small chunks, in a small file and alone"""
+    rng = ctx.rng
+    for i in range(n_bases):
+        two_level = (i % 2 == 1)
+        n_leaves = rng.choice([257, rng.randint(258, 400), rng.randint(258, 400)])
+        n_cells = rng.randint(257, 300)
+        problem = gen_wide_problem(rng, n_leaves, n_cells, two_level)
+        cfg = U.gen_config(rng, problem, flatten=False, factor=1.0)
+        cfg.update(flatten=(two_level and rng.random() < 0.5), drop_level=None,
+                   chunk_size=n_cells + rng.randint(0, 5), n_processors=1,
+                   bootstrap_iteration=rng.choice([1, 2]),
+                   n_runners_up=rng.randint(0, 3), encoding='dense')
+        ctx.count('wide:%s:%d-children' % ('two-level' if two_level else 'flat',
+                                           n_leaves))
+        table = {}
+        base = run_one(ctx, problem, cfg, table, 'wide-base')
+        cells = list(zip(problem['cell_ids'], problem['X']))
+        for kind in ('wide-small-chunks', 'wide-subset', 'wide-single'):
+            d = copy.deepcopy(problem)
+            dc = dict(cfg, rng_seed=rng.randrange(1, 10000))
+            if kind == 'wide-small-chunks':
+                dc['chunk_size'] = rng.choice([rng.randint(30, 120), 255])
+                dc['n_processors'] = rng.randint(1, 3)
+            else:
+                k = 1 if kind == 'wide-single' else rng.randint(2, 40)
+                pick = rng.sample(cells, k)
+                d['cell_ids'] = [c for c, _ in pick]
+                d['X'] = [list(x) for _, x in pick]
+                dc['chunk_size'] = rng.randint(1, k + 3)
+            check_pair(ctx, problem, cfg, d, dc, kind, base_run=base,
+                       table=table)
+
+
+def run_huge_groups(ctx, n_bases):
+    """election groups beyond the batch sizes of the nearest-neighbour search:
+    10001-15000 cells in ONE chunk (so that the root group, and large groups
+    below it, exceed 10000 rows) against the same cells in small files"""
+    rng = ctx.rng
+    for _ in range(n_bases):
+        for _try in range(200):
+            problem = U.make_problem(rng, max_depth=3, max_leaves=6, n_cells=6,
+                                     n_genes=8)
+            t = problem['tree']
+            if len(t[t['hierarchy'][0]]) >= 2:
+                break       # the root itself votes on the whole chunk
+        sanitize(rng, problem)
+        n = 10000 + rng.choice([rng.randint(1, 4999), rng.randint(1, 4999),
+                                5000])
+        ids, X = [], []
+        base_rows = [list(x) for x in problem['X']]
+        for i in range(n):
+            ids.append('h%d' % i)
+            if i < n - 40 and rng.random() < 0.9:
+                X.append(list(rng.choice(base_rows)))
+            else:
+                X.append(draw_row(rng, problem))
+        problem['cell_ids'], problem['X'] = ids, X
+        cfg = U.gen_config(rng, problem, flatten=False, factor=1.0)
+        cfg.update(flatten=False, drop_level=None, chunk_size=n + 5,
+                   n_processors=1, bootstrap_iteration=1, n_runners_up=1,
+                   encoding='dense')
+        ctx.count('huge-group:%d-cells' % (n // 1000 * 1000))
+        table = {}
+        base = run_one(ctx, problem, cfg, table, 'huge-base')
+        cells = list(zip(ids, X))
+        # the tail of the file and a random sample, mapped as a small file
+        for kind, pick in (('huge-tail', cells[-30:]),
+                           ('huge-sample', rng.sample(cells, 30))):
+            d = copy.deepcopy(problem)
+            d['cell_ids'] = [c for c, _ in pick]
+            d['X'] = [list(x) for _, x in pick]
+            dc = dict(cfg, chunk_size=rng.randint(5, 40),
+                      rng_seed=rng.randrange(1, 10000))
+            check_pair(ctx, problem, cfg, d, dc, kind, base_run=base,
+                       table=table)
+
+
+def check_choose_node(ctx, case):
+    """the real choose_node at bootstrap factor 1 against an independent
+    arg-max of the Pearson correlation (numpy only): many candidate types,
+    few query cells -- index arrays must not be narrowed to the cell count"""
+    import numpy as np
+    from cell_type_mapper.type_assignment.election import choose_node
+    g = np.random.default_rng(case['seed'])
+    n_types, n_ref, n_q, n_genes = (case['n_types'], case['n_ref'],
+                                    case['n_query'], case['n_genes'])
+    ref = g.random((n_ref, n_genes)) * 6.0
+    types_of_row = [i % n_types for i in range(n_ref)]
+    g.shuffle(types_of_row)
+    names = ['t%07d' % t for t in types_of_row]
+    rank = {t: i for i, t in enumerate(sorted(set(names)))}
+    targets = []
+    for _ in range(n_q):
+        r = g.random()
+        cands = [i for i, nm in enumerate(names)
+                 if (rank[nm] >= 256 if r < 0.7 else True)] or \
+            list(range(n_ref))
+        targets.append(int(cands[int(g.integers(len(cands)))]))
+    query = ref[targets] + g.normal(0, 0.02, (n_q, n_genes))
+    # independent expectation
+    qc = query - query.mean(axis=1, keepdims=True)
+    rc = ref - ref.mean(axis=1, keepdims=True)
+    corr = (qc @ rc.T) / np.outer(np.sqrt((qc ** 2).sum(axis=1)),
+                                  np.sqrt((rc ** 2).sum(axis=1)))
+    best = corr.argmax(axis=1)
+    margin = np.sort(corr, axis=1)
+    ctx.case(json.dumps(case, sort_keys=True) if n_types > 1 else None,
+             sample=dict(case, kind='choose_node'))
+    ctx.count('choose_node:types:%s' % (
+        '<=256' if n_types <= 256 else '257-65536' if n_types <= 65536
+        else '>65536'))
+    ctx.count('choose_node:cells:%s' % ('<=255' if n_q <= 255 else '>=256'))
+    res, prob, avg, runners = choose_node(
+        query_gene_data=query, reference_gene_data=ref,
+        reference_types=list(names), bootstrap_factor=1.0,
+        bootstrap_iteration=case['iterations'],
+        rng=np.random.default_rng(case['seed'] + 1),
+        n_assignments=case['n_assignments'])
+    for i in range(n_q):
+        if margin[i, -1] - margin[i, -2] < 1e-6:
+            continue     # a genuine near tie: nothing to demand
+        want = names[best[i]]
+        fail = None
+        if str(res[i]) != want:
+            fail = ('assignment', 'assigned %r (p=%r, corr=%r), the best '
+                    'correlated reference row belongs to %r (corr=%r)'
+                    % (str(res[i]), float(prob[i]), float(avg[i]), want,
+                       float(corr[i, best[i]])))
+        elif float(prob[i]) != 1.0:
+            fail = ('probability', 'probability %r' % float(prob[i]))
+        elif not U.close(float(avg[i]), float(corr[i, best[i]])):
+            fail = ('correlation', 'avg_corr %r, exact %r'
+                    % (float(avg[i]), float(corr[i, best[i]])))
+        if fail:
+            ctx.violation(
+                'C06/unit-choose-node/%s' % fail[0],
+                'choose_node, %d candidate types, %d reference rows, %d query '
+                'cells, cell %d: %s' % (n_types, n_ref, n_q, i, fail[1]),
+                dict(case, kind='choose_node'))
+            return False
+    return True
+
+
+def run_choose_node(ctx, quick):
+    rng = ctx.rng
+    shapes = [(257, 1), (256, 3), (255, 5), (300, 255), (300, 256),
+              (rng.randint(258, 400), rng.randint(1, 40)),
+              (rng.randint(258, 2000), rng.randint(1, 255)),
+              (65537, 2), (65536, 1), (rng.randint(65537, 70000), 3)]
+    if not quick:
+        shapes += [(rng.randint(257, 5000), rng.randint(1, 300))
+                   for _ in range(30)]
+        shapes += [(66000, 300), (65537, 256)]
+    for n_types, n_q in shapes:
+        dup = rng.random() < 0.3 and n_types < 5000
+        check_choose_node(ctx, {
+            'n_types': n_types,
+            'n_ref': n_types + (rng.randint(1, 40) if dup else 0),
+            'n_query': n_q, 'n_genes': rng.randint(4, 7),
+            'iterations': rng.choice([1, 3]),
+            'n_assignments': rng.randint(1, 5),
+            'seed': rng.randrange(10 ** 6)})
+
+
 def run(ctx):
     quick = ctx.tier == 'quick'
     c01.run_corpus(ctx, 'C06', replay)
     run_units(ctx, 60 if quick else 400)
     run_pairs(ctx, 24 if quick else 150,
               KINDS_QUICK if quick else KINDS_THOROUGH)
+    run_choose_node(ctx, quick)
+    run_wide_pairs(ctx, 2 if quick else 10)
+    run_huge_groups(ctx, 1 if quick else 4)
 
 
 def replay(ctx, data, from_corpus=False):
@@ -521,6 +746,8 @@ def replay(ctx, data, from_corpus=False):
                    copies=d.get('copies'), share=d.get('share'))
     elif kind == 'single':
         check_single(ctx, d['problem'], d['config'])
+    elif kind == 'choose_node':
+        check_choose_node(ctx, {k: v for k, v in d.items() if k != 'kind'})
     elif kind == 'unit':
         c01.check_unit(ctx, d['tree'], d['kappas'],
                        c01.script_from_list(d['script']),
